@@ -53,6 +53,15 @@ def ValidGuards (P : Params) : Prop :=
   P.ldHeader = 2 ∧ P.ldLenBits = 16 ∧ P.ldReadSub = 2 ∧ P.ldReadLo = 2
 instance (P : Params) : Decidable (ValidGuards P) := by unfold ValidGuards; infer_instance
 
+/-- the length-prefixed reader/writer pair (`ReadLenData` / `WriteLenData`): a 16-bit big-endian
+    prefix that counts itself; the writer refuses what does not fit below the field maximum; the
+    reader accepts every length from the prefix size up.  The writer's return value (`ldRetAdd`) is
+    deliberately not constrained: the theorems state it as it is. -/
+def ValidLd (P : Params) : Prop :=
+  P.ldHeader = 2 ∧ P.ldLenBits = 16 ∧ P.ldReadSub = 2 ∧ P.ldReadLo ≤ 2 ∧
+  P.ldWriteAdd = 2 ∧ P.ldWriteHeader = 2 ∧ P.ldWriteHi = 65534
+instance (P : Params) : Decidable (ValidLd P) := by unfold ValidLd; infer_instance
+
 def Valid02 (P : Params) : Prop := Valid01 P ∧ ValidGuards P
 instance (P : Params) : Decidable (Valid02 P) := by unfold Valid02; infer_instance
 
